@@ -614,7 +614,7 @@ class C13(TrackerProp):
     modules = ["Adsb.Theorems.C13", "Adsb.Theorems.C13b", "Adsb.Theorems.C05d"]
     deps = TrackerProp.deps + TRACKER_POS
     rule = C12.rule + "; receivers at 6 sites incl. high latitude and the antimeridian, ranges 150-1000 km"
-    claim = "publish iff both reports stored, pairing in range and within the jump limit; otherwise the record is cleared; invariant: published position = pairing of stored reports, distance = receiver distance, for every reachable state; the haversine formula of the tracker (model generic in the number type) equals radius x central angle of the two unit vectors over the reals (Theorems/C13b: haversine_is_great_circle, symmetry, range [0, 6371*pi], 0 to itself, antipodes; plausible_iff_great_circle: the tracker's test passes exactly when the candidate is within the range of the receiver and within 100 km of the published position along the great circle)"
+    claim = "publish iff both reports stored, pairing in range and within the jump limit; otherwise the record is cleared; invariant: published position = pairing of stored reports, distance = receiver distance, for every reachable state; the haversine formula of the tracker (model generic in the number type) equals radius x central angle of the two unit vectors over the reals (Theorems/C13b: haversine_is_great_circle, symmetry, range [0, 6371*pi], 0 to itself, antipodes; plausible_iff_great_circle: the tracker's test passes exactly when the candidate is within the range of the receiver and within 100 km of the published position along the great circle; distance_is_from_this_call: with the receiver position changing from call to call, an accepted report leaves the distance measured from the receiver of that call, also when the report is the one already stored)"
     note = "the theorems about histories take the distance and the CPR pairing as parameters; the distance formula itself is proved over the reals (Mathlib), its f64 evaluation and the CPR pairing are tied numerically (reference great-circle distance and exact-arithmetic CPR decode in tools/cprspec.py)"
     with_time = False
     def pick(self, allpos, recs, order): return tuple((k, recs[k]["e"], recs[k]["o"], recs[k]["pos"], recs[k]["kd"]) for k in order)
